@@ -60,7 +60,7 @@ func runC07(c *Ctx) error {
 	if !c.quick() {
 		iters = 3000
 	}
-	endings := []string{"peerclose", "protoerr", "eof", "handlerclose", "toolarge", "truncated", "crossedclose"}
+	endings := []string{"peerclose", "protoerr", "eof", "handlerclose", "toolarge", "truncated", "crossedclose", "hugelen"}
 	for it := 0; it < iters; it++ {
 		server := it%2 == 0
 		parallel := it%3 != 0
@@ -112,6 +112,8 @@ func runC07(c *Ctx) error {
 			stream = append(stream, encodeFrame(frameSpec{Fin: true, Rsv2: true, Opcode: 2, Masked: masked, Key: [4]byte{5, 5, 5, 5}, Payload: []byte("x"), DeclLen: -1})...)
 		case "toolarge":
 			stream = append(stream, dataFrame(2, true, masked, make([]byte, 6000))...)
+		case "hugelen": // a 64-bit length with the most significant bit set
+			stream = append(stream, encodeFrame(frameSpec{Fin: true, Opcode: 2, Masked: masked, Key: [4]byte{5, 5, 5, 5}, Payload: []byte("x"), UseU64: true, DeclU64: 1<<64 - 1, DeclLen: -1})...)
 		case "truncated":
 			stream = append(stream, dataFrame(2, true, masked, make([]byte, 100))[:50]...)
 		case "handlerclose":
@@ -251,7 +253,7 @@ func runC07(c *Ctx) error {
 		c.count(tag, true, "ending="+ending, fmt.Sprintf("parallel=%v", parallel))
 	}
 	// ---- endings that start on the WRITE side while the reader is parked in a healthy, silent transport
-	wendings := []string{"writeclose", "write-fault", "write-dead", "deadline-fault", "netconn-close", "rejected-call-dead-link"}
+	wendings := []string{"writeclose", "write-fault", "write-dead", "deadline-fault", "netconn-close", "rejected-call-dead-link", "broadcast-write-fault"}
 	for it := 0; it < 4*len(wendings); it++ {
 		server := it%2 == 0
 		ending := wendings[it%len(wendings)]
@@ -290,6 +292,13 @@ func runC07(c *Ctx) error {
 			werr = conn.SetDeadline(time.Now().Add(time.Hour))
 		case "netconn-close":
 			werr = conn.NetConn().Close()
+		case "broadcast-write-fault": // the failing write is the one of an asynchronous broadcast job
+			tap.mu.Lock()
+			tap.failWrite = tap.nWrite
+			tap.mu.Unlock()
+			b := gws.NewBroadcaster(gws.OpcodeText, []byte("broadcast into a failing transport"))
+			werr = b.Broadcast(conn)
+			defer b.Close()
 		case "rejected-call-dead-link":
 			// a call rejected for its size starts the teardown with one kind of error; the Close frame then fails on a
 			// broken link with an error of another concrete type
@@ -329,11 +338,17 @@ func runC07(c *Ctx) error {
 		case werr != nil && strings.HasPrefix(werr.Error(), "PANIC: "):
 			c.oracleFail(fmt.Sprintf("the write call panicked: %v [%s]", werr, tag), "write-panic", replay)
 			_ = tap.Close()
-			<-rl
+			select {
+			case <-rl:
+			case <-time.After(2 * time.Second): // a deadlocked teardown: do not wait for it
+			}
 		case !returned:
 			c.oracleFail(fmt.Sprintf("the connection was ended from the write side but ReadLoop did not return within 5 s (OnClose ran %d times, transport closed=%v) [%s]", closes, closed, tag), "readloop-hang", replay)
 			_ = tap.Close()
-			<-rl
+			select {
+			case <-rl:
+			case <-time.After(2 * time.Second): // a deadlocked teardown: do not wait for it
+			}
 		case opens != 1 || closes != 1:
 			c.oracleFail(fmt.Sprintf("OnOpen x%d, OnClose x%d [%s]", opens, closes, tag), "close-not-once", replay)
 		case closeErr == nil:
